@@ -749,6 +749,14 @@ wait:
 		}
 	default:
 		status = "crash"
+		if ee, ok := werr.(*exec.ExitError); ok {
+			if ws, ok := ee.Sys().(syscall.WaitStatus); ok && ws.Signaled() && ws.Signal() == syscall.SIGKILL && !strings.Contains(es, "panic:") && !strings.Contains(es, "fatal error:") {
+				// killed from outside the harness without a word from the Go runtime (the kernel's out-of-memory
+				// killer on a loaded machine): nothing was observed about the library, so this is undecided
+				status = "timeout"
+				es = "child was killed by SIGKILL from outside the harness (out-of-memory killer?)\n" + es
+			}
+		}
 	}
 	return got, inflight, status, es
 }
